@@ -102,6 +102,7 @@ Definition from_hmsf h m s f fp : outcome dicom_time :=
   else
     _ <- guard (ok_hour h) P_component;; _ <- guard (ok_minute m) P_component;;
     _ <- guard (ok_second s) P_component;;
+    if 4294967295 <? f * 10 ^ (6 - fp) then Panic 1 (* u32 overflow, debug builds *) else
     _ <- guard (ok_fraction (f * 10 ^ (6 - fp))) P_component;; Ok (TFrac h m s f fp).
 
 Definition date_precise (d : dicom_date) : bool := match d with DDay _ _ _ => true | _ => false end.
@@ -180,27 +181,41 @@ Definition dt_byte_len (v : dicom_dt) : N :=
 Definition is_digit (b : N) : bool := (48 <=? b) && (b <=? 57).
 Fixpoint digits_val (acc : N) (l : bytes) : N :=
   match l with [] => acc | b :: t => digits_val (acc * 10 + (b - 48)) t end.
-(* read_number::<T>: every call site reads at most 6 digits into a type that holds them *)
-Definition read_number (t : bytes) : outcome N :=
+(* read_number (checks) without the width of the target type *)
+Definition read_digits (t : bytes) : outcome N :=
   if (length t =? 0)%nat || (9 <? length t)%nat then Err E_numlen
   else if forallb is_digit t then Ok (digits_val 0 t) else Err E_numtok.
+(* panic classes *)
+Definition PN_overflow : N := 1.   (* arithmetic overflow (debug builds; release wraps) *)
+Definition PN_unwrap : N := 2.     (* u8::try_from(n).unwrap() *)
+Definition PN_underflow : N := 3.  (* 6 - fp with fp > 6 (debug builds) *)
+(* read_number::<T> where T holds 0..=max: read_number_unchecked folds acc * 10 + digit in T;
+   the intermediate values never exceed the final one, so it overflows iff the value exceeds max *)
+Definition read_number (max : N) (t : bytes) : outcome N :=
+  v <- read_digits t;; if max <? v then Panic PN_overflow else Ok v.
+Definition U8 : N := 255.
+Definition U16 : N := 65535.
+Definition U32 : N := 4294967295.
+Definition I32 : N := 2147483647.
 
 Definition short (n : nat) (b : bytes) : bool := (length b <? n)%nat.
 
 Definition parse_date_partial (buf : bytes) : outcome (dicom_date * bytes) :=
   if short 4 buf then Err E_eoe else
-  year <- read_number (firstn 4 buf);;
+  year <- read_number 65535 (firstn 4 buf);;
   let buf := skipn 4 buf in
   if short 2 buf then d <- ctx_partial (from_y year);; Ok (d, buf) else
-  match read_number (firstn 2 buf) with
+  match read_number 255 (firstn 2 buf) with
   | Ok month =>
       let buf2 := skipn 2 buf in
       if short 2 buf2 then d <- ctx_partial (from_ym year month);; Ok (d, buf2) else
-      match read_number (firstn 2 buf2) with
+      match read_number 255 (firstn 2 buf2) with
       | Ok day => d <- ctx_partial (from_ymd year month day);; Ok (d, skipn 2 buf2)
-      | _ => d <- ctx_partial (from_ym year month);; Ok (d, buf2)
+      | Err _ => d <- ctx_partial (from_ym year month);; Ok (d, buf2)
+      | Panic w => Panic w
       end
-  | _ => d <- ctx_partial (from_y year);; Ok (d, buf)
+  | Err _ => d <- ctx_partial (from_y year);; Ok (d, buf)
+  | Panic w => Panic w
   end.
 
 (* buf.iter().position(|b| !b.is_ascii_digit()).unwrap_or(buf.len()) *)
@@ -209,27 +224,30 @@ Fixpoint lead_digits (l : bytes) : nat :=
 
 Definition parse_time_partial (buf : bytes) : outcome (dicom_time * bytes) :=
   if short 2 buf then Err E_eoe else
-  hour <- read_number (firstn 2 buf);;
+  hour <- read_number 255 (firstn 2 buf);;
   let buf := skipn 2 buf in
   if short 2 buf then t <- ctx_partial (from_h hour);; Ok (t, buf) else
-  match read_number (firstn 2 buf) with
+  match read_number 255 (firstn 2 buf) with
   | Ok minute =>
       let buf2 := skipn 2 buf in
       if short 2 buf2 then t <- ctx_partial (from_hm hour minute);; Ok (t, buf2) else
-      match read_number (firstn 2 buf2) with
+      match read_number 255 (firstn 2 buf2) with
       | Ok second =>
           let buf3 := skipn 2 buf2 in
           (* buf contains at least ".F" otherwise ignore *)
           if (1 <? length buf3)%nat && (hd 0 buf3 =? dot) then
             let buf4 := tl buf3 in
             let n := Nat.min 6 (lead_digits buf4) in
-            fraction <- read_number (firstn n buf4);;
+            fraction <- read_number 4294967295 (firstn n buf4);;
+            if (255 <? n)%nat then Panic PN_unwrap else   (* u8::try_from(n).unwrap() *)
             t <- ctx_partial (from_hmsf hour minute second fraction (N.of_nat n));;
             Ok (t, skipn n buf4)
           else t <- ctx_partial (from_hms hour minute second);; Ok (t, buf3)
-      | _ => t <- ctx_partial (from_hm hour minute);; Ok (t, buf2)
+      | Err _ => t <- ctx_partial (from_hm hour minute);; Ok (t, buf2)
+      | Panic w => Panic w
       end
-  | _ => t <- ctx_partial (from_h hour);; Ok (t, buf)
+  | Err _ => t <- ctx_partial (from_h hour);; Ok (t, buf)
+  | Panic w => Panic w
   end.
 
 (* FixedOffset::east_opt / west_opt: |secs| < 86400 *)
@@ -241,8 +259,8 @@ Definition parse_zone (buf : bytes) : outcome (option Z) :=
   | [] => Ok None
   | sign :: rest =>
       if (length buf <=? 4)%nat then Err E_eoe else
-      tz_h <- read_number (firstn 2 rest);;
-      tz_m <- read_number (firstn 2 (skipn 2 rest));;
+      tz_h <- read_number 4294967295 (firstn 2 rest);;
+      tz_m <- read_number 4294967295 (firstn 2 (skipn 2 rest));;
       let s := (tz_h * 60 + tz_m) * 60 in
       if sign =? plus then
         _ <- guard (ok_east s) E_tz_comp;; z <- fixed_offset (Z.of_N s);; Ok (Some z)
@@ -254,15 +272,21 @@ Definition parse_zone (buf : bytes) : outcome (option Z) :=
 Definition parse_datetime_partial (buf : bytes) : outcome dicom_dt :=
   dr <- parse_date_partial buf;;
   let '(date, rest) := dr in
-  let '(time, buf) := match parse_time_partial rest with
-                      | Ok (t, b) => (Some t, b)
-                      | _ => (None, rest)
-                      end in
+  tr <- match parse_time_partial rest with
+        | Ok (t, b) => Ok (Some t, b)
+        | Err _ => Ok (None, rest)
+        | Panic w => Panic w
+        end;;
+  let '(time, buf) := tr in
   zone <- parse_zone buf;;
   match time with
   | Some tm => map_err (fun _ => E_dt_partials) (from_date_and_time date tm zone)
   | None => Ok (mkDT date None zone)
   end.
+
+
+Definition odef {A} (o : option A) (a : A) : A := match o with Some x => x | None => a end.
+Definition of_opt {A} (o : option A) (e : N) : outcome A := match o with Some x => Ok x | None => Err e end.
 
 (** * Calendar (stands in for chrono::NaiveDate / NaiveTime) *)
 Definition leap (y : N) : bool :=
@@ -299,6 +323,52 @@ Definition valid_hmsu (h m s us : N) : bool :=
 Definition from_hms_micro_opt (h m s us : N) : option hmsu :=
   if valid_hmsu h m s us then Some (h, m, s, us) else None.
 
+(** * Full-precision parsers (deserialize.rs parse_date, parse_time) *)
+Definition E_incomplete : N := 11.      (* IncompleteValue *)
+Definition E_invalid_time : N := 12.    (* InvalidTime *)
+Definition E_frac_delim : N := 13.      (* FractionDelimiter *)
+Definition E_invalid_date : N := 14.    (* InvalidDate *)
+
+Definition parse_date (buf : bytes) : outcome ymd :=
+  let len := length buf in
+  if (len =? 4)%nat then Err E_incomplete
+  else if (len =? 6)%nat then Err E_incomplete
+  else if (8 <=? len)%nat then
+    year <- read_number 2147483647 (firstn 4 buf);;
+    month <- read_number 4294967295 (firstn 2 (skipn 4 buf));;
+    _ <- guard (ok_month month) E_tz_comp;;
+    day <- read_number 4294967295 (firstn 2 (skipn 6 buf));;
+    _ <- guard (ok_day day) E_tz_comp;;
+    of_opt (from_ymd_opt year month day) E_invalid_date
+  else Err E_eoe.
+
+Definition parse_time (buf : bytes) : outcome (hmsu * bytes) :=
+  let len := length buf in
+  if (len =? 2)%nat then Err E_incomplete
+  else if (len =? 4)%nat then Err E_incomplete
+  else if (len =? 6)%nat || (8 <=? len)%nat then
+    hour <- read_number 4294967295 (firstn 2 buf);;
+    _ <- guard (ok_hour hour) E_tz_comp;;
+    minute <- read_number 4294967295 (firstn 2 (skipn 2 buf));;
+    _ <- guard (ok_minute minute) E_tz_comp;;
+    second <- read_number 4294967295 (firstn 2 (skipn 4 buf));;
+    _ <- guard (ok_second second) E_tz_comp;;
+    let rest := skipn 6 buf in
+    if (len =? 6)%nat then
+      (* NaiveTime::from_hms_opt *)
+      t <- of_opt (from_hms_micro_opt hour minute second 0) E_invalid_time;; Ok (t, rest)
+    else if negb (hd 0 rest =? 46) then Err E_frac_delim
+    else
+      let buf4 := tl rest in
+      let n := Nat.min 6 (lead_digits buf4) in
+      f0 <- read_number 4294967295 (firstn n buf4);;
+      let fraction := f0 * 10 ^ (6 - N.of_nat n) in      (* while acc < 6 { fraction *= 10 } *)
+      if 4294967295 <? fraction then Panic PN_overflow else
+      _ <- guard (ok_fraction fraction) E_tz_comp;;
+      t <- of_opt (from_hms_micro_opt hour minute second fraction) E_invalid_time;;
+      Ok (t, skipn n buf4)
+  else Err E_eoe.
+
 (* microseconds since midnight *)
 Definition time_us (t : hmsu) : Z :=
   let '(h, m, s, us) := t in
@@ -313,8 +383,6 @@ Definition utc_us (p : ndt) (off : Z) : Z := (naive_us p - off * 1000000)%Z.
 Definition d_year d := match d with DYear y | DMonth y _ | DDay y _ _ => y end.
 Definition d_month d := match d with DYear _ => None | DMonth _ m | DDay _ m _ => Some m end.
 Definition d_day d := match d with DDay _ _ d => Some d | _ => None end.
-Definition odef {A} (o : option A) (a : A) : A := match o with Some x => x | None => a end.
-Definition of_opt {A} (o : option A) (e : N) : outcome A := match o with Some x => Ok x | None => Err e end.
 
 Definition date_earliest (v : dicom_date) : outcome ymd :=
   of_opt (from_ymd_opt (d_year v) (odef (d_month v) 1) (odef (d_day v) 1)) R_invalid_date.
@@ -336,14 +404,21 @@ Definition t_minute t := match t with THour _ => None | TMinute _ m | TSecond _ 
 Definition t_second t := match t with TSecond _ _ s | TFrac _ _ s _ _ => Some s | _ => None end.
 Definition t_frac t := match t with TFrac _ _ _ f fp => Some (f, fp) | _ => None end.
 
+(* f * 10^(6 - fp) in u32: 6 - fp underflows for fp > 6, the product may overflow (both panic in
+   debug builds only; no constructor yields such a value) *)
+Definition frac_scaled (t : dicom_time) (extra : N -> N) (dflt : N) : outcome N :=
+  match t_frac t with
+  | None => Ok dflt
+  | Some (f, fp) =>
+      if 6 <? fp then Panic 3
+      else let k := 10 ^ (6 - fp) in
+           if 4294967295 <? f * k + extra k then Panic 1 else Ok (f * k + extra k)
+  end.
 Definition time_earliest (t : dicom_time) : outcome hmsu :=
-  let f := match t_frac t with None => 0 | Some (f, fp) => f * 10 ^ (6 - fp) end in
+  f <- frac_scaled t (fun _ => 0) 0;;
   of_opt (from_hms_micro_opt (t_hour t) (odef (t_minute t) 0) (odef (t_second t) 0) f) R_invalid_time_micro.
 Definition time_latest (t : dicom_time) : outcome hmsu :=
-  let f := match t_frac t with
-           | None => 999999
-           | Some (f, fp) => f * 10 ^ (6 - fp) + 10 ^ (6 - fp) - 1
-           end in
+  f <- frac_scaled t (fun k => k - 1) 999999;;
   of_opt (from_hms_micro_opt (t_hour t) (odef (t_minute t) 59) (odef (t_second t) 59) f) R_invalid_time_micro.
 
 (* PreciseDateTime *)
@@ -476,12 +551,15 @@ Definition parse_datetime_range (mode : amb_mode) (buf : bytes) : outcome dt_ran
     | [d0] => split_range mode buf d0
     | [d0; d1] =>
         match parse_datetime_partial (firstn d0 buf), parse_datetime_partial (skipn (S d0) buf) with
+        | Panic w, _ => Panic w
+        | _, Panic w => Panic w
         | Ok s, Ok e =>
             lo <- dt_earliest s;;
             hi <- dt_latest e;;
             match combine mode lo hi with
             | Ok r => Ok r
-            | _ => split_range mode buf d1
+            | Err _ => split_range mode buf d1
+            | Panic w => Panic w
             end
         | _, _ => split_range mode buf d1
         end
@@ -578,6 +656,8 @@ Inductive case : Type :=
 | CParseDate (buf : bytes) (r : outcome (dicom_date * bytes))
 | CParseTime (buf : bytes) (r : outcome (dicom_time * bytes))
 | CParseDT (buf : bytes) (r : outcome dicom_dt)
+| CParseDateFull (buf : bytes) (r : outcome ymd)
+| CParseTimeFull (buf : bytes) (r : outcome (hmsu * bytes))
 | CDateRange (buf : bytes) (r : outcome date_range)
 | CTimeRange (buf : bytes) (r : outcome time_range)
 | CDTRange (mode : amb_mode) (buf : bytes) (r : outcome dt_range).
@@ -603,6 +683,8 @@ Definition check_case (c : case) : bool :=
   | CParseDate buf r => out_eqb (pair_eqb date_eqb str_eqb) (parse_date_partial buf) r
   | CParseTime buf r => out_eqb (pair_eqb time_eqb str_eqb) (parse_time_partial buf) r
   | CParseDT buf r => out_eqb dt_eqb (parse_datetime_partial buf) r
+  | CParseDateFull buf r => out_eqb N3_eqb (parse_date buf) r
+  | CParseTimeFull buf r => out_eqb (pair_eqb N4_eqb str_eqb) (parse_time buf) r
   | CDateRange buf r =>
       out_eqb (pair_eqb (opt_eqb N3_eqb) (opt_eqb N3_eqb)) (parse_date_range buf) r
   | CTimeRange buf r =>
